@@ -42,6 +42,8 @@ def harness_path(h):
     f, name = h.split("::", 1)
     rel, mod = vlib.HARNESS_MODULES[f]
     modpath = rel[len("src/"):-len(".rs")].replace("/", "::")
+    if modpath == "lib":
+        return "%s::%s" % (mod, name)
     return "%s::%s::%s" % (modpath, mod, name)
 
 
@@ -64,7 +66,7 @@ def native_replay(crate, hfile, test_text, timeout=900):
 
 def report_violation(pid, tier, crate, failed, out_text, prop, flags_of=None):
     """Write replay files, try native replay, print VIOLATION lines. Returns count of violations."""
-    rdir = os.path.join(VERIF, "replays", pid)
+    rdir = os.path.join(vlib.OUT, "replays", pid)
     os.makedirs(rdir, exist_ok=True)
     by_h = {}
     for f in failed:
@@ -150,7 +152,7 @@ def main(argv):
     tier = a["tier"]
     seed = int(os.environ.get("VERIF_SEED", "0") or 0)
     t0 = time.time()
-    ev_path = os.path.join(VERIF, "evidence", "%s.json" % pid)
+    ev_path = os.path.join(vlib.OUT, "evidence", "%s.json" % pid)
     jobs = a["jobs"] or min(16, os.cpu_count() or 4)
     ev = {"property_id": pid, "tier": tier, "seed": seed, "level": prop["level"], "coverage": {}, "assumptions": list(prop.get("assumptions", [])),
           "wall_s": 0.0, "violations": 0}
@@ -162,7 +164,9 @@ def main(argv):
         harnesses = [harness_path(h) for h in prop["kani"].get("quick", [])]
         if tier == "thorough":
             harnesses += [harness_path(h) for h in prop["kani"].get("thorough", [])]
-        crate, irep = vlib.prepare_crate(pid, prop["modules"], prop.get("contract_groups", []))
+        CANARY = harness_path("canary_h.rs::canary_false_claim_must_fail")
+        harnesses.append(CANARY)
+        crate, irep = vlib.prepare_crate(pid, list(prop["modules"]) + ["canary_h.rs"], prop.get("contract_groups", []))
         cov["instrumentation"] = irep
         cov["extraction_drops"] = "nothing: cargo kani compiles /repo's working-tree sources unmodified (copied to a scratch crate); inserted text = contract attribute lines + one appended `mod` item per harness module"
         ht = prop.get("harness_timeout", {}).get(tier, 600 if tier == "quick" else 3600)
@@ -195,6 +199,15 @@ def main(argv):
         cmd = " ; ".join(cmds)
         res = vlib.classify(data, out, harnesses, None)
         undecided += res["undecided"]
+        # the canary's false claim must have been refuted; it is not an obligation of the property
+        canary_failed = [f for f in res["failed"] if f["name"].startswith("CANARY.")]
+        canary_seen = [o for o in res["obligations"] if o["name"].startswith("CANARY.")]
+        if data is not None and not canary_failed:
+            undecided.append("vacuity canary: the verifier did NOT refute a false claim (%s)" % ("canary passed" if canary_seen else "canary did not run"))
+        cov["vacuity_canary"] = "false claim refuted by the verifier" if canary_failed else "NOT refuted"
+        res["failed"] = [f for f in res["failed"] if not f["name"].startswith("CANARY.")]
+        res["obligations"] = [o for o in res["obligations"] if not o["name"].startswith("CANARY.")]
+        res["per_harness"].pop(CANARY, None)
         failed = res["failed"]
         obl = res["obligations"]
         named = [o for o in obl if o["kind"] in ("named", "contract")]
@@ -212,6 +225,11 @@ def main(argv):
         if missing and data is not None:
             undecided.append("expected named obligations missing from this run: %s" % ", ".join(missing[:8]))
         solver_s = sum((ph.get("solver_s") or 0) for ph in res["per_harness"].values())
+        bh = {h: why for h, why in P.BOUNDED_HARNESSES.items() if any(x.endswith("::" + h) for x in res["per_harness"])}
+        n_bounded = len([o for o in obl if o["harness"].split("::")[-1] in bh])
+        cov["bounded_stand_in"] = {"harnesses": bh, "obligations": n_bounded,
+                                   "note": "complete for the stated size (unwinding assertions on); a bounded stand-in w.r.t. 'every size', not counted as proved without bound"}
+        cov["obligations_proved_without_size_bound"] = len(discharged) - len([o for o in discharged if o["harness"].split("::")[-1] in bh])
         cov.update({
             "obligations": len(obl),
             "discharged": len(discharged),
